@@ -53,7 +53,7 @@ class Audit:
                 variants = [(c, {"P": t}) for c, _ in variants for t in self.tgens["P"]]
             for cg, tg in variants:
                 try:
-                    se = sym.SymExec(self.f, b, cgen=cg, tgen=tg, max_paths=self.max_paths, opaque=self.opaque)
+                    se = sym.SymExec(self.f, b, cgen=cg, tgen=tg, max_paths=self.max_paths, opaque=self.opaque, auto_unroll=True)
                     paths = se.run()
                 except sym.PathLimit as e:
                     self.errors.append((b.key, str(e)))
